@@ -134,6 +134,11 @@ def aspect(prev, ev, hk):
         return "detached-fixup-without-label-id"
     if k == "inst" and r == 0 and ev.get("vr") and head_is_validating_x86_builder(prev):
         return "accepts-virtual-register-id"
+    h_ = prev.get("_head", {})
+    if k == "inst" and r == 0 and ev.get("fr") and h_.get("arch") != "a64" and (h_.get("va") if h_.get("em") == "asm" else h_.get("vi")):
+        return "accepts-field-out-of-documented-range"
+    if k == "inst" and h_.get("fast") and "tw" in ev and (r == 0) != (ev["tw"] == 0):
+        return ("fast-path-accepts-what-slow-path-refuses:%d" % ev["tw"]) if r == 0 else ("fast-path-refuses-what-slow-path-accepts:%d" % r)
     if k == "finalize" and r == 0 and prev.get("_pend"):
         return "accepts-what-assembler-refuses:%d" % prev["_pend"]
     if k == "finalize":
@@ -200,6 +205,8 @@ def classify(x, aborts_by_xi):
     if not head.get("att", True):
         emcls += "-detached"
     key = f"{emcls}:{kind}:{asp}"
+    if asp.startswith("fast-path-"):
+        key = asp
     if asp.startswith("accepts-what-assembler-refuses"):
         key = "builder-" + asp
         first = next((r_ for r_ in recs[:i] if r_.get("e") == "Call" and r_.get("k") == "inst" and r_.get("r") == 0 and r_.get("sh")), {})
@@ -255,6 +262,10 @@ def run(ctx):
         arch = sh["arch"]
         for rec in vlib.read_ndjson(sh["path"]):
             nrec += 1
+            if rec.get("e") == "Call" and rec.get("fr"):
+                stats[(arch, sh["em"], "field-out-of-range", "ok" if rec["r"] == 0 else "err")] += 1
+            if rec.get("e") == "Call" and "tw" in rec:
+                stats[(arch, sh["em"], "fast-vs-slow", "ok" if rec["r"] == 0 else "err")] += 1
             if rec.get("e") == "Call":
                 ok = "ok" if rec["r"] == 0 else "err"
                 stats[(arch, sh["em"], rec["k"], ok)] += 1
@@ -264,6 +275,8 @@ def run(ctx):
             elif rec.get("e") == "Finish":
                 stats[(arch, sh["em"], "finish", ("style%d" % rec["u"][0]) + ("/cmp" if rec["cmp"] else ""))] += 1
                 ctx.distinct.add((arch, sh["em"], "finish", tuple(rec["u"][:4]), rec["cmp"]))
+            elif rec.get("e") == "Reset" and sh["em"] == "asm" and sh["mode"] == "general":
+                stats[(arch, "asm", "path", "fast" if rec.get("fast") else "slow")] += 1
             elif rec.get("e") == "Reset" and sh["em"] != "asm":
                 stats[(arch, sh["em"], "diag", ("VI" if rec.get("vi") else "") + ("+VA" if rec.get("va") else "") or "none")] += 1
     ctx.evaluations = nrec
@@ -293,7 +306,9 @@ def run(ctx):
     need = [("x86", "asm", "inst", "err"), ("x64", "asm", "inst", "ok"), ("a64", "asm", "inst", "err"), ("x64", "builder", "inst", "err"),
             ("x64", "asm", "bind", "err"), ("x64", "asm", "elabel", "err"), ("a64", "asm", "probe", "delta"),
             ("x64", "asm", "finish", "style2/cmp"), ("x86", "asm", "finish", "style1"), ("x64", "builder", "finish", "style0/cmp"),
-            ("x64", "builder", "diag", "VI"), ("x64", "builder", "diag", "none"), ("x64", "builder", "diag", "VI+VA"), ("x64", "compiler", "diag", "VI")]
+            ("x64", "builder", "diag", "VI"), ("x64", "builder", "diag", "none"), ("x64", "builder", "diag", "VI+VA"), ("x64", "compiler", "diag", "VI"),
+            ("a64", "asm", "path", "fast"), ("x64", "asm", "path", "fast"), ("x86", "asm", "path", "fast"), ("a64", "asm", "fast-vs-slow", "err"),
+            ("x64", "asm", "fast-vs-slow", "ok"), ("x64", "asm", "field-out-of-range", "err"), ("x86", "asm", "field-out-of-range", "err")]
     missing = [n for n in need if not stats.get(n)]
     if missing:
         raise Broken(f"call classes never exercised: {missing}")
@@ -306,6 +321,8 @@ def run(ctx):
         "isolated triggers (x86-32 [label] with invalid id; x86-64 [label+disp] with disp near INT32_MIN; 16-bit addressing with disp outside 0..32767; x86 Compiler register operands with a size field > 64; a valid Compiler program with a dead block jumping into live code; AArch64 vector element-type perturbation, element-index perturbation under the Compiler; detached emitters) are generated only in dedicated executions so that one open defect does not end every execution",
         "every execution ends with a finishing phase on the holder (flatten + resolve_cross_section_fixups [+ relocate_to_base], or JitRuntime::_add + _release); when every refused call left the projection unchanged it is compared with a reference pass of the same seed in which the refused calls are omitted",
         "Builder: DiagnosticOptions swept over the subsets of {kValidateAssembler, kValidateIntermediate} (x86 without any validation: operand kinds of real forms are kept); Compiler: kValidateIntermediate always on; an x86 Builder with kValidateIntermediate must refuse virtual register ids; an accepted request that a strictly validating shadow Assembler refuses (state-independent error) must not finalize Ok",
+        "fast path: ~30% of the general Assembler executions run without logger and without diagnostic options (x86: operand kinds of real forms kept); each has a twin pass (same seed, logger attached) and every instruction request must be accepted/refused alike; a64 instruction ids are perturbed with every condition code",
+        "x86 memory operand fields are drawn over their full bit range (segment 0..7, broadcast 0..7, address type 0..3, shift 0..3), register group fields over 0..15; with validation on, segment 7 / broadcast 7 must be refused (address type 3 and a group inconsistent with the register type are accepted by the validator and encode the instruction the register type / default address type denotes: not alarmed)",
         "whether an accepted instruction is CORRECT is C01/C02; here an Ok emit only has to append 1..15 bytes (x86) / 4 bytes (a64) and nothing else",
     ]
     vlib.write_evidence(ctx, "model_checking",
